@@ -19,8 +19,7 @@ Part 3 (the filter):
   SourceSnapshot::observe, chi_1.
 
 Every Rust panic site on these paths is an explicit `none`:
-i8/i32 overflow (test builds have overflow checks), `-hysteresis` at `i32::MIN`, `i64::abs` of
-`i64::MIN` in `abs_diff`, the `debug_assert!` of `NtpDuration::from_seconds` on NaN/∞.
+i8/i32 overflow (test builds have overflow checks), `-hysteresis` at `i32::MIN`, the `debug_assert!` of `NtpDuration::from_seconds` on NaN/∞.
 -/
 import NtpVerif.Basic.F64
 import NtpVerif.Basic.Wrap
@@ -160,10 +159,14 @@ def durFromSeconds (s : F64) : Option Int :=
   else if ii < I32_MIN then some I64_MIN
   else some I64_MAX
 
-/-- `NtpDuration::abs_diff`: `(self - other).abs()` — saturating `-`, `i64::abs` panics on `i64::MIN` -/
+/-- `NtpDuration::abs_diff`: `(self - other).abs()` — saturating `-`, then `i64::saturating_abs`
+    (since the `fix:` for C32 `abs` no longer overflows on `i64::MIN`: it yields `i64::MAX`).  Total; the
+    `Option` is kept so that callers read as before (`none` never occurs: `durAbsDiff_isSome`). -/
 def durAbsDiff (a b : Int) : Option Int :=
   let d := satI64 (a - b)
-  if d = I64_MIN then none else some (if d < 0 then -d else d)
+  some (if d = I64_MIN then I64_MAX else if d < 0 then -d else d)
+
+theorem durAbsDiff_isSome (a b : Int) : ∃ d, durAbsDiff a b = some d := ⟨_, rfl⟩
 
 /-- `NtpDuration::from_system_duration` of a `std::time::Duration` given in nanoseconds
     (`(seconds << 32) + ((nanos << 32) / 10⁹)`, reinterpreted as `i64`) -/
